@@ -16,8 +16,9 @@ CONSTANTS Classes,     \* names of the registered feature-map classes
           Writes,      \* [Classes -> STRING]
           MaxCycles
 
-VARIABLES obj,   \* the live object: [kind, cls] | Error | None
-          file,  \* the last artifact written: [kind, fmt, code, cls, suffix] | None
+VARIABLES obj,   \* the live object: [kind, cls, ver] | Error | None   (ver: which parameter set it carries)
+          file,  \* THE artifact at the (single) path in use: [kind, fmt, code, cls, suffix, ver] | None.  A later dump
+                 \* OVERWRITES it; a load must return what the path holds NOW, not what an earlier load saw there
           ncyc, hist
 vars == <<obj, file, ncyc, hist>>
 None == <<>>
@@ -31,22 +32,25 @@ Suffixes == {".yaml", ".joblib", ".txt"}
 Init == obj = None /\ file = None /\ ncyc = 0 /\ hist = <<>>
 \* a dump is only worth exploring right after the object was made or (re)loaded
 LastOp == IF hist = <<>> THEN "none" ELSE hist[Len(hist)][1]
-FreshObj == LastOp \in {"make", "load", "loadmodel"}
+FreshObj == LastOp \in {"make", "load", "loadmodel", "renew"}
 
-Make(kind, c) == /\ obj = None /\ obj' = [kind |-> kind, cls |-> c] /\ UNCHANGED <<file, ncyc>>
+Make(kind, c) == /\ obj = None /\ obj' = [kind |-> kind, cls |-> c, ver |-> 0] /\ UNCHANGED <<file, ncyc>>
                  /\ hist' = Append(hist, <<"make", kind, c>>)
+\* the user goes on (refits, edits) after a reload: same kind and class, NEW parameters; the next dump overwrites the path
+Renew == /\ obj # None /\ obj # Error /\ LastOp \in {"load", "loadmodel"} /\ ncyc < MaxCycles
+         /\ obj' = [obj EXCEPT !.ver = @ + 1] /\ hist' = Append(hist, <<"renew">>) /\ UNCHANGED <<file, ncyc>>
 
 \* FeatureList.as_dict / dump ; SplineSetEvaluator.to_dict / dump
 DumpCoded(fmt) ==
   /\ obj # None /\ obj # Error /\ obj.kind \in {"list", "spline"} /\ fmt \in ListFmts /\ ncyc < MaxCycles /\ FreshObj
   /\ file' = [kind |-> obj.kind, fmt |-> fmt, cls |-> obj.cls,
-              code |-> IF obj.kind = "list" THEN Writes[obj.cls] ELSE "spline", suffix |-> Suffix(fmt)]
+              code |-> IF obj.kind = "list" THEN Writes[obj.cls] ELSE "spline", suffix |-> Suffix(fmt), ver |-> obj.ver]
   /\ hist' = Append(hist, <<"dump", fmt>>) /\ UNCHANGED <<obj, ncyc>>
 \* FeatureNormalizer.from_dict: dispatch on the code through the registry
 LoadCoded ==
   /\ file # None /\ file.kind \in {"list", "spline"} /\ LastOp \in {"dump", "corrupt"}
-  /\ obj' = IF file.kind = "spline" THEN [kind |-> "spline", cls |-> file.cls]
-            ELSE IF file.code \in RegCodes THEN [kind |-> "list", cls |-> Reg[file.code]] ELSE Error
+  /\ obj' = IF file.kind = "spline" THEN [kind |-> "spline", cls |-> file.cls, ver |-> file.ver]
+            ELSE IF file.code \in RegCodes THEN [kind |-> "list", cls |-> Reg[file.code], ver |-> file.ver] ELSE Error
   /\ ncyc' = ncyc + 1 /\ hist' = Append(hist, <<"load">>) /\ UNCHANGED file
 \* a hand-edited / foreign file with a code nobody registered
 Corrupt == /\ file # None /\ file.kind = "list" /\ file.code # "Bogus" /\ LastOp = "dump"
@@ -57,7 +61,7 @@ Corrupt == /\ file # None /\ file.kind = "list" /\ file.code # "Bogus" /\ LastOp
 DumpModel(fmt, sfx) ==
   /\ obj # None /\ obj # Error /\ obj.kind \in {"model", "list"} /\ fmt \in ModelFmts /\ ncyc < MaxCycles /\ FreshObj
   /\ file' = [kind |-> IF obj.kind = "model" THEN "modelfile" ELSE "listfile", fmt |-> fmt, cls |-> obj.cls,
-              code |-> "n/a", suffix |-> sfx]
+              code |-> "n/a", suffix |-> sfx, ver |-> obj.ver]
   /\ hist' = Append(hist, <<"dumpmodel", fmt, sfx>>) /\ UNCHANGED <<obj, ncyc>>
 \* load_cider_model(fname, mlfunc_format)
 Resolved(fmt, sfx) == IF fmt = "infer" THEN (IF sfx = ".yaml" THEN "yaml" ELSE IF sfx = ".joblib" THEN "joblib" ELSE "unsupported")
@@ -68,12 +72,12 @@ LoadModel(fmt) ==
        obj' = IF rf = "unsupported" THEN Error                 \* ValueError("Unsupported file format")
               ELSE IF rf # file.fmt THEN Error                  \* parser of the other format fails
               ELSE IF file.kind # "modelfile" THEN Error        \* not a MappedXC: ValueError
-              ELSE [kind |-> "model", cls |-> file.cls]
+              ELSE [kind |-> "model", cls |-> file.cls, ver |-> file.ver]
   /\ ncyc' = ncyc + 1 /\ hist' = Append(hist, <<"loadmodel", fmt>>) /\ UNCHANGED file
 
 Next == \/ \E k \in {"list", "spline", "model"}, c \in Classes : Make(k, c)
         \/ \E f \in ListFmts : DumpCoded(f)
-        \/ LoadCoded \/ Corrupt
+        \/ LoadCoded \/ Corrupt \/ Renew
         \/ \E f \in ModelFmts, s \in Suffixes : DumpModel(f, s)
         \/ \E f \in LoadFmts : LoadModel(f)
 Spec == Init /\ [][Next]_vars
@@ -83,7 +87,7 @@ Spec == Init /\ [][Next]_vars
 RegistryConsistent == \A c \in Classes : Writes[c] \in RegCodes /\ Reg[Writes[c]] = c
 \* a successful load yields the class that was dumped
 RoundTrip == [][(LoadCoded \/ \E f \in LoadFmts : LoadModel(f)) =>
-                 (obj' # Error => obj'.cls = file.cls)]_vars
+                 (obj' # Error => obj'.cls = file.cls /\ obj'.ver = file.ver)]_vars
 \* unknown codes and unsupported / mismatching formats never produce an object
 UnknownCodeRejected == [][(LoadCoded /\ file.kind = "list" /\ file.code \notin RegCodes) => obj' = Error]_vars
 BadFormatRejected == [][\A f \in LoadFmts : (LoadModel(f) /\ Resolved(f, file.suffix) # file.fmt) => obj' = Error]_vars
